@@ -86,8 +86,13 @@ def parse_result(out):
     nums = re.findall(r",\s*(\d+)\s*,\s*(\d+)", blob)
     reached, total = (int(nums[0][0]), int(nums[0][1])) if nums else (0, 0)
     bad = []
-    for m in re.finditer(r'p \|-> "([^"]+)",\s*w \|->\s*"([^"]*)",\s*at \|-> (\d+)', blob, re.S):
-        bad.append({"p": m.group(1), "w": re.sub(r"\s+", " ", m.group(2)), "at": int(m.group(3))})
+    for m in re.finditer(r'\[([^\[\]]*\|->[^\[\]]*)\]', blob, re.S):
+        rec = m.group(1)
+        mp = re.search(r'p \|->\s*"([^"]+)"', rec)
+        mw = re.search(r'w \|->\s*"([^"]*)"', rec, re.S)
+        ma = re.search(r'at \|->\s*(\d+)', rec)
+        if mp and mw and ma:
+            bad.append({"p": mp.group(1), "w": re.sub(r"\s+", " ", mw.group(2 - 1)), "at": int(ma.group(1))})
     return {"reached": reached, "total": total, "bad": bad}
 
 
